@@ -55,8 +55,53 @@ pub struct World {
     pub yielding: bool,
     /// log of all operations incl. reads: for fault enumeration
     pub kinds: Vec<char>,
+    /// node cache configuration for cores opened on this storage (None = no cache)
+    pub cache: Option<u64>,
+    /// which backend the four stores live on (default: the instrumented flat files above)
+    pub kind: Kind,
 }
 pub type Shared = Arc<Mutex<World>>;
+
+/// alternative backends for the configuration-independence check (C14)
+#[derive(Debug, Clone, Default)]
+pub enum Kind {
+    #[default]
+    Inst,
+    Mem(Arc<[Arc<futures::lock::Mutex<random_access_memory::RandomAccessMemory>>; 4]>),
+    Disk(Arc<tempfile::TempDir>),
+}
+
+#[derive(Debug)]
+pub struct SharedRA<T>(pub Arc<futures::lock::Mutex<T>>);
+#[async_trait::async_trait]
+impl<T: RandomAccess + Send + std::fmt::Debug> RandomAccess for SharedRA<T> {
+    async fn write(&mut self, offset: u64, data: &[u8]) -> Result<(), RandomAccessError> { self.0.lock().await.write(offset, data).await }
+    async fn read(&mut self, offset: u64, length: u64) -> Result<Vec<u8>, RandomAccessError> { self.0.lock().await.read(offset, length).await }
+    async fn del(&mut self, offset: u64, length: u64) -> Result<(), RandomAccessError> { self.0.lock().await.del(offset, length).await }
+    async fn truncate(&mut self, length: u64) -> Result<(), RandomAccessError> { self.0.lock().await.truncate(length).await }
+    async fn len(&mut self) -> Result<u64, RandomAccessError> { self.0.lock().await.len().await }
+    async fn is_empty(&mut self) -> Result<bool, RandomAccessError> { self.0.lock().await.is_empty().await }
+    async fn sync_all(&mut self) -> Result<(), RandomAccessError> { self.0.lock().await.sync_all().await }
+}
+pub const STORE_NAMES: [&str; 4] = ["tree", "data", "bitfield", "oplog"];
+
+/// raw bytes of the four stores under any backend
+pub fn dump_files(w: &Shared) -> Files {
+    let kind = w.lock().unwrap().kind.clone();
+    match kind {
+        Kind::Inst => w.lock().unwrap().files.clone(),
+        Kind::Mem(m) => {
+            let mut out: Files = Default::default();
+            for i in 0..4 { out[i] = block_on(async { let mut g = m[i].lock().await; let l = g.len().await.unwrap(); g.read(0, l).await.unwrap() }); }
+            out
+        }
+        Kind::Disk(d) => {
+            let mut out: Files = Default::default();
+            for i in 0..4 { out[i] = std::fs::read(d.path().join(STORE_NAMES[i])).unwrap_or_default(); }
+            out
+        }
+    }
+}
 
 pub fn new_world(files: Files) -> Shared { Arc::new(Mutex::new(World { files, ..Default::default() })) }
 
@@ -134,6 +179,17 @@ pub fn store_idx(store: &Store) -> usize {
 }
 
 pub async fn storage(w: &Shared) -> Result<Storage, hypercore::HypercoreError> {
+    let kind = w.lock().unwrap().kind.clone();
+    match kind {
+        Kind::Inst => {}
+        Kind::Mem(m) => {
+            return Storage::open(move |store: Store| {
+                let inner = m[store_idx(&store)].clone();
+                async move { Ok(Box::new(SharedRA(inner)) as Box<dyn StorageTraits + Send>) }.boxed()
+            }, false).await;
+        }
+        Kind::Disk(d) => { return Storage::new_disk(&d.path().to_path_buf(), false).await; }
+    }
     let w = w.clone();
     Storage::open(
         move |store: Store| {
